@@ -426,6 +426,7 @@ func (e *Exec) evalUnary(st *State, n *ast.UnaryExpr) Value {
 			loc := &HeapLoc{Fam: heapFamily(t), Ref: ref, Typ: t}
 			e.storeLoc(st, loc, v)
 			st.assume(mkEq(dynType(ref), typeIdTerm(info.TypeOf(n))))
+			e.ghostInit(st, t, Scalar{ref, info.TypeOf(n)})
 			return Scalar{ref, info.TypeOf(n)}
 		}
 		xt := info.TypeOf(n.X)
@@ -536,6 +537,9 @@ func (e *Exec) equalValues(st *State, a, b Value, n ast.Node) *Term {
 			return tFalse
 		}
 		panic(unsupported(fmt.Sprintf("nil comparison with %T", b)))
+	}
+	if t, ok := ifaceVsConcrete(a, b); ok {
+		return t
 	}
 	switch av := a.(type) {
 	case Scalar:
@@ -684,7 +688,7 @@ func (e *Exec) arith(st *State, op token.Token, a, b Value, rt types.Type, n ast
 }
 
 // wraps reports whether the contract marks this node as relying on wrap-around (not used yet).
-func (e *Exec) wraps(n ast.Node) bool { return false }
+func (e *Exec) wraps(n ast.Node) bool { return e.truncOK(n) }
 
 func wrapTerm2(r *Term, t types.Type) *Term {
 	lo, hi, ok := intRange(t)
@@ -1034,3 +1038,22 @@ func (e *Exec) globalArray(st *State, v *types.Var) (ArrayVal, bool) {
 }
 
 func (e *Exec) entry0Alloc(st *State) *Term { return mkVar("G!"+allocGhost, SInt) }
+
+// ghostInit applies the `ghostinit T: map[this] = expr` directives for a freshly allocated *T.
+func (e *Exec) ghostInit(st *State, t types.Type, this Value) {
+	named, ok := t.(*types.Named)
+	if !ok || named.Obj().Pkg() == nil {
+		return
+	}
+	inits := e.prog.specs.GhostInits[named.Obj().Pkg().Path()+"#"+named.Obj().Name()]
+	for _, gi := range inits {
+		g, ok := e.prog.specs.Ghosts[gi.Name]
+		if !ok {
+			panic(ContractError{"ghostinit: unknown ghost map " + gi.Name})
+		}
+		env := &SpecEnv{e: e, st: st, old: st, vars: map[string]Value{"this": this}, pkg: named.Obj().Pkg(), what: "ghostinit " + named.Obj().Name()}
+		v := specTerm(env.eval(gi.Expr))
+		m := st.ghostVar(gi.Name, specSort(g.Type))
+		st.ghost[gi.Name] = mkStore(m, asTerm(this), v)
+	}
+}
